@@ -333,6 +333,8 @@ def _eq_checks(w, g, t, cls, tag, s, also_hash):
             e = h1 if st1 == "exc" else h2
             w.report({"C03"}, f"twin:{tag}|hash|raised:{type(e).__name__}|{cls}", repr(e))
             return False
+        if w.record_hashes:
+            w.log.append(("hash", w.step_no, h1))
         if h1 != h2:
             w.report({"C03"}, f"twin:{tag}|hash-differs|{cls}", f"{h1} {h2}")
             return False
